@@ -19,22 +19,20 @@ impl<T: CoordsFloat> CMap3<T> {
     ) -> TransactionClosureResult<(), SewError> {
         // using these custom orbits, I can get both dart of all sides, directly ordered
         // for the merges
-        let l_face = self
-            .orbit(OrbitPolicy::Custom(&[1, 0]), ld)
-            .min()
-            .expect("E: unreachable");
-        let r_face = self
-            .orbit(OrbitPolicy::Custom(&[0, 1]), rd)
-            .min()
-            .expect("E: unreachable");
+        // both walks go through the transaction: the faces may have been edited by it
+        let l_side = self
+            .orbit_transac(trans, OrbitPolicy::Custom(&[1, 0]), ld)
+            .collect::<Result<Vec<_>, _>>()?;
+        let r_side = self
+            .orbit_transac(trans, OrbitPolicy::Custom(&[0, 1]), rd)
+            .collect::<Result<Vec<_>, _>>()?;
+        let l_face = l_side.iter().copied().min().expect("E: unreachable");
+        let r_face = r_side.iter().copied().min().expect("E: unreachable");
         let mut edges: Vec<(EdgeIdType, EdgeIdType)> = Vec::with_capacity(10);
         let mut vertices: Vec<(VertexIdType, VertexIdType)> = Vec::with_capacity(10);
 
         // read edge + vertex on the b1ld side. if b0ld == NULL, we need to read the left vertex
-        for (l, r) in self
-            .orbit(OrbitPolicy::Custom(&[1, 0]), ld)
-            .zip(self.orbit(OrbitPolicy::Custom(&[0, 1]), rd))
-        {
+        for (l, r) in l_side.into_iter().zip(r_side) {
             edges.push((
                 self.edge_id_transac(trans, l)?,
                 self.edge_id_transac(trans, r)?,
@@ -164,14 +162,14 @@ impl<T: CoordsFloat> CMap3<T> {
         try_or_coerce!(self.unlink::<3>(trans, ld), SewError);
 
         // faces
-        let l_face = self
-            .orbit(OrbitPolicy::Custom(&[1, 0]), ld)
-            .min()
-            .expect("E: unreachable");
-        let r_face = self
-            .orbit(OrbitPolicy::Custom(&[0, 1]), rd)
-            .min()
-            .expect("E: unreachable");
+        let l_side = self
+            .orbit_transac(trans, OrbitPolicy::Custom(&[1, 0]), ld)
+            .collect::<Result<Vec<_>, _>>()?;
+        let r_side = self
+            .orbit_transac(trans, OrbitPolicy::Custom(&[0, 1]), rd)
+            .collect::<Result<Vec<_>, _>>()?;
+        let l_face = l_side.iter().copied().min().expect("E: unreachable");
+        let r_face = r_side.iter().copied().min().expect("E: unreachable");
         try_or_coerce!(
             self.attributes.split_attributes(
                 trans,
@@ -183,10 +181,7 @@ impl<T: CoordsFloat> CMap3<T> {
             SewError
         );
 
-        for (l, r) in self
-            .orbit(OrbitPolicy::Custom(&[1, 0]), ld)
-            .zip(self.orbit(OrbitPolicy::Custom(&[0, 1]), rd))
-        {
+        for (l, r) in l_side.into_iter().zip(r_side) {
             // edge
             let (eid_l, eid_r) = (
                 self.edge_id_transac(trans, l)?,
